@@ -105,13 +105,15 @@ def run(pid, spec, tier, seed, wd, only, rebase, t_start):
     if seed:
         import random
         random.Random(seed).shuffle(jobs)
-    includes = spec.get('contracts', []) + spec.get('stubs', [])
+    includes = spec.get('include_order') or (spec.get('contracts', []) + spec.get('stubs', []))
     with open(os.path.join(wd, 'canary_defaults.h'), 'w') as f:
         for name in sorted(sigs):
             f.write('#ifndef NIX_CANARY_%s\n#define NIX_CANARY_%s\n#endif\n' % (name, name))
+            f.write('#ifdef NIX_ENFORCE_%s\n#define NIX_SEL_%s(a, b) a\n#else\n#define NIX_SEL_%s(a, b) b\n#endif\n' % (name, name, name))
     built = []
     for js in jobs:
         bodies = [extracted[n].text for n in js.get('bodies', [])]
+        if js.get('extra_c'): bodies.append(js['extra_c'])
         extra = ''
         enforce = js.get('enforce', [])
         if js.get('lemma'):
@@ -124,7 +126,9 @@ def run(pid, spec, tier, seed, wd, only, rebase, t_start):
             entry = 'h_' + fn
         defines = list(js.get('defines', [])) + ['NIX_ENFORCE_' + f for f in enforce]
         cfile = D.write_unit_c(wd, js['name'], js.get('includes', includes), etext, bodies, extra)
-        job = D.Job(workdir=wd, jobname=js['name'], cfile=cfile, entry=entry, enforce=enforce, replace=js.get('replace', []),
+        alltext = '\n'.join(bodies) + extra
+        repl = list(js.get('replace', []))
+        job = D.Job(workdir=wd, jobname=js['name'], cfile=cfile, entry=entry, enforce=enforce, replace=repl,
                     loop_contracts=js.get('loop_contracts', False), unwind_first=js.get('unwind_first'),
                     cbmc_flags=js.get('cbmc_flags', []), defines=defines, timeout=js.get('timeout', 600), spec=js)
         built.append(job)
